@@ -8,4 +8,5 @@ def main : IO UInt32 :=
     | "c09" => C09.checkTracer params lines
     | "c09g" => C09.checkGrammar params lines
     | "c09c" => C09.checkGrammar params lines
+    | "c09x" => C09.checkShutdown params lines
     | _ => { bad := [s!"unknown family {family}"] })
